@@ -24,7 +24,8 @@
 //	         C src,dst,sizes one message sliced        W id,src,dst,first,count  datagram put on the wire
 //	         R id / L id / D id,newid  datagram delivered / lost / duplicated
 //	info   : data for the oracle (settle line): sent and received messages per connection, acked-prefix traces,
-//	         memory high-water marks, allocator counters
+//	         memory high-water marks (with the loss predicted by the mechanism of finding F14 at every reset),
+//	         allocator counters, messages submitted by the flush phase
 package udp
 
 import (
@@ -73,6 +74,14 @@ type verifUdpRunT struct {
 	outLive map[*[]byte]bool
 	// first step at which acquiredMemory differed from the memory accounted to the transport's connections
 	acctBad string
+	// per transport: what the mechanism of finding F14 predicts to be lost at the resets seen so far, computed in the
+	// close handler (called by renewConnection right before resetGoReadUnlockedState): the stream range reserved by
+	// the connection minus the bytes of its already allocated IncomingMessages (the only thing the reset releases)
+	predLeak [transports]int64
+	resets   int
+	// messages submitted by the flush phase (after the restarts have settled): these must be delivered
+	flushSent []string
+	inFlush   bool
 }
 
 func verifUdpFnv(s string) uint32 {
@@ -132,7 +141,25 @@ func verifUdpNew(mode byte, seed uint64) *verifUdpRunT {
 				conn.MessageHandle = r.handler(addressToTransportId(conn.remoteAddr().String()), tIdCopy)
 				conn.StreamLikeIncoming = r.stream
 			},
-			func(_ *Connection) {},
+			func(conn *Connection) {
+				r.resets++
+				if !r.stream {
+					return
+				}
+				in := &conn.incoming
+				reserved := in.messagesTotalOffset - in.messagesBeginOffset
+				seen := map[*IncomingMessage]bool{}
+				allocated := int64(0)
+				for s := in.ackPrefix; s < in.nextSeqNo; s++ {
+					ch := in.windowChunks.GetPtr(s)
+					if ch == nil || ch.message == nil || ch.message == &fakeMessage || ch.message.data == nil || seen[ch.message] {
+						continue
+					}
+					seen[ch.message] = true
+					allocated += int64(len(*ch.message.data))
+				}
+				r.predLeak[tIdCopy] += reserved - allocated
+			},
 			func(size int) *[]byte {
 				fctx.allocatedMessages++
 				m := make([]byte, size)
@@ -215,6 +242,9 @@ func (r *verifUdpRunT) newMessage(transportId, dstId, messageSize int) {
 	fctx.sentMessages[RandomMessage{src: transportId, dst: dstId, message: saved}] += 1
 	k := [2]int{transportId, dstId}
 	r.sent[k] = append(r.sent[k], saved)
+	if r.inFlush {
+		r.flushSent = append(r.flushSent, fmt.Sprintf("%d>%d:%s", transportId, dstId, verifUdpDigest(saved)))
+	}
 	r.emit("S%d,%d,%s", transportId, dstId, hex.EncodeToString([]byte(saved)))
 }
 
@@ -254,8 +284,8 @@ func (r *verifUdpRunT) observe() {
 			for _, c := range t.handshakeByPid {
 				sum += c.incoming.messagesTotalOffset - c.incoming.messagesBeginOffset
 			}
-			if sum != t.acquiredMemory {
-				r.acctBad = fmt.Sprintf("%d:%d:%d:%d", tId, r.steps, t.acquiredMemory, sum)
+			if sum+r.predLeak[tId] != t.acquiredMemory {
+				r.acctBad = fmt.Sprintf("%d:%d:%d:%d:%d", tId, r.steps, t.acquiredMemory, sum, r.predLeak[tId])
 			}
 		}
 		for _, c := range t.handshakeByPid {
@@ -689,6 +719,11 @@ func (r *verifUdpRunT) info(iters int, stuck, quiescent bool) string {
 	fmt.Fprintf(&sb, "iters=%d stuck=%t quiescent=%t steps=%d alloc=%d dealloc=%d inalloc=%d inlive=%d badfree=%d outlive=%d unackedconns=%d",
 		iters, stuck, quiescent, r.steps, r.fctx.allocatedMessages, r.fctx.deallocatedMessages, r.inAlloc, len(r.inLive), r.inDoubleFree,
 		len(r.outLive), unacked)
+	fs := "-"
+	if len(r.flushSent) > 0 {
+		fs = strings.Join(r.flushSent, ";")
+	}
+	fmt.Fprintf(&sb, " resets=%d flushsent=%s", r.resets, fs)
 	sb.WriteString(" sent=" + verifUdpMsgs(r.sent))
 	sb.WriteString(" recv=" + verifUdpMsgs(r.recv))
 	sb.WriteString(" mem=")
@@ -700,7 +735,7 @@ func (r *verifUdpRunT) info(iters int, stuck, quiescent bool) string {
 		for _, c := range t.handshakeByPid {
 			sum += c.incoming.messagesTotalOffset - c.incoming.messagesBeginOffset
 		}
-		fmt.Fprintf(&sb, "%d:%d:%d:%d:%d:%d", tId, r.memMax[tId], t.acquiredMemory, t.incomingMessagesMemoryLimit, t.memoryWaiters.Len(), sum)
+		fmt.Fprintf(&sb, "%d:%d:%d:%d:%d:%d:%d", tId, r.memMax[tId], t.acquiredMemory, t.incomingMessagesMemoryLimit, t.memoryWaiters.Len(), sum, r.predLeak[tId])
 	}
 	sb.WriteString(" ackp=")
 	for i, c := range r.order {
@@ -807,6 +842,7 @@ func TestVerifUdp(t *testing.T) {
 			} else {
 				msg = verifUdpRecover(func() {
 					if f[0] == "flush" {
+						run.inFlush = true
 						// one more small message on every existing active connection, so that every peer hears from
 						// the current generation of its partner
 						for tId := range run.fctx.ts {
